@@ -30,10 +30,24 @@ record trivially has a uniform line width), so the clauses are read for them as 
     *reloaded from the .agp cache* has the same scaffolds as the one just built, rowless ones included, in
     file order (AGP has no line for an object without rows; both were defects of the pinned tree - a
     ZeroDivisionError and a record silently missing after a warm load - repaired in /repo).
+
+Header lines.  A FASTA file is a byte string: the name of a record (first column of the quintuple) is what
+stands between '>' and the first ASCII white-space byte (space, TAB, VT, FF, or the line terminator - the
+isspace() of `samtools faidx`); what follows on the line is a free-form description that only has to be free
+of line terminators - it need not be UTF-8 or text at all.  Non-ASCII white space (U+00A0, U+0085, U+2003,
+..) and the C0 separators 0x1C-0x1F are not white space of a byte-oriented format and belong to the name.
+Every printable non-space ASCII character ('#' of PanSN names, ':', '|', '=', quotes, brackets ..) may occur
+anywhere in a name, and none of the clauses depends on how a record is called: quintuple, random access,
+tiling and streaming back hold for such files exactly as for `>s1`, on the first (cold) load *and* on the
+load that finds the .fai/.agp pair written by the first one (warm).  Two classes of names are kept off the
+cold-then-warm route because the unchanged tree fails there (reported, not yet in known_findings.json):
+names that start with '#' and names containing non-ASCII white space or 0x1C-0x1F; they are still indexed
+directly.
 """
 
 import io
 import itertools
+import locale
 import os
 import pathlib
 import random
@@ -47,6 +61,79 @@ from . import fasta_gen as G
 from .common import Collector
 
 SMALL = 14  # records up to this length get every interval fetched
+
+# ----------------------------------------------------------------------------------------------------------
+# header-line variety (names, separators, descriptions) - all from the reading of the statement given above
+
+PRINTABLE = [chr(c) for c in range(0x21, 0x7F)]  # every printable non-space ASCII character
+SEPARATORS = (b" ", b"\t", b"\x0b", b"\x0c", b"  ", b" \t", b"\t ", b"\x0c\x0b ")  # ASCII white space other than CR / LF
+ANY_BYTES = bytes(b for b in range(256) if b not in (10, 13))  # every byte a description may hold
+DESC_BODIES = (
+    b"isolate St\xe9nop\xe9",  # ISO-8859-1 text
+    ANY_BYTES,
+    b"\xff\xfe\x00d",
+    b"truncated UTF-8 \xc3",
+    b"\xe2\x80",
+    b"\x80\x85\xa0 \xa0",
+    "espace\u00a0ins\u00e9cable\u2003\u67d3\u8272\u4f53".encode(),  # valid UTF-8, non-ASCII white space
+    b">not a header",
+    b"# not a comment",
+    b"a\x00b\x1c\x1d\x1e\x1f\x7f",
+    b"len=7 [organism=X y] \"q\" 'q' a|b;c:d",
+    b"\x1b[31mred\x1b[0m",
+    b"",  # separator(s) only
+)
+REAL_NAMES = (
+    "HG002#1#ctg000010", "HG002#2#ctg000010", "HG002#1#ctg000011", "x#", "a##b",
+    "sp|P12345|X_Y", "gi|1|ref|NC_1.1|", "chr1:100-200", "chr1:100-201", "ctg=1;x", "a,b", "scaffold_1/1", "x%20y",
+    "a\\b", "'q'", '"q"', "a`b", "{x}", "[x]", "(x)", "x*", "x?", "~x", "x@y", "x$", "x&y", "x!", "x+y", "x^y", "<x>", ">x",
+    "".join(PRINTABLE),  # all of them at once
+)  # fmt: skip
+UTF8_NAMES = ("\u00e01", "\u00c5x", "\u2026", "ctg_\u00e9", "\u67d3\u8272\u4f531", "\u03a9mega", "x\u0300", "a\x00b", "c\x7fd", "e\x01f", "g\x1bh")
+# non-ASCII white space and C0 separators inside a name (part of the name: not ASCII white space); in pairs that
+# differ only behind that character
+SPACED_NAMES = tuple(f"chr{c}{k}" for c in "\u00a0\u2003\u0085\x1c\x1d\x1e\x1f\u3000\u2028\u1680\u2009\u205f" for k in (1, 2))
+HASH_FIRST_NAMES = ("#x", "#1#a", "##", "#")
+UTF8_IO = locale.getpreferredencoding(False).lower().replace("-", "").replace("_", "") == "utf8"
+
+
+def cacheable(name):
+    """
+    may this name go through the cold-then-warm route?  Not when it starts with '#' or contains a character
+    that str.split() takes for white space (both fail on the unchanged tree: reported); non-ASCII names only
+    where the cache files are written as UTF-8
+    """
+    if name.startswith("#") or any(ch.isspace() for ch in name):
+        return False
+    return UTF8_IO or name.isascii()
+
+
+def plain_header(r):
+    return r.name.isascii() and r.name.replace("_", "").replace(".", "").isalnum() and all(32 <= b < 127 or b == 9 for b in r.desc)
+
+
+def header_note(case):
+    """the header lines, appended to a failure message when they are not of the plain `>s1 desc` kind"""
+    if all(plain_header(r) for r in case.records):
+        return ""
+    return "  [header lines: " + ", ".join(repr(b">" + r.name.encode() + r.desc)[1:] for r in case.records)[:400] + "]"
+
+
+def header_names(quick):
+    """names for the header family -> (cacheable names, names only indexed directly)"""
+    names = list(REAL_NAMES) + list(UTF8_NAMES)
+    for c in PRINTABLE:
+        names.append(f"a{c}b")
+        if not quick or not c.isalnum():
+            names += [f"a{c}", f"{c}a", c, c + c, f"{c}1{c}"]
+    direct = list(SPACED_NAMES) + list(HASH_FIRST_NAMES)
+    seen, warm = set(), []
+    for nm in names:
+        if nm in seen:
+            continue
+        seen.add(nm)
+        (warm if cacheable(nm) else direct).append(nm)
+    return warm, list(dict.fromkeys(direct))
 
 
 class Case(G.FastaCase):
@@ -66,6 +153,11 @@ class Case(G.FastaCase):
 
 def as_case(case):
     return Case(case.records, case.width, case.eol, case.final_newline)
+
+
+def short(e):
+    r = repr(e)
+    return r if len(r) <= 200 else r[:200] + "...)"
 
 
 def close_index(fi):
@@ -130,7 +222,8 @@ def check_stream_back(case, fi, asm, line_length, what, reloaded=False):
         FastaStream(out, fi, line_length=line_length).write_assembly(asm)
     except Exception as e:  # noqa: BLE001
         return [f"{what}: streaming the derived assembly raised {e!r}"]
-    want = [(r.name, G.masked(r.seq)) for r in case.records]
+    # parse_written_fasta reads header bytes as latin-1: compare the bytes of the names
+    want = [(r.name.encode().decode("latin-1"), G.masked(r.seq)) for r in case.records]
     return [f"{what}: streamed back, {m}" for m in G.compare_written_fasta(out.getvalue(), want, line_length)]
 
 
@@ -171,7 +264,7 @@ def check_case_buffer(case, layout, path, bs, line_lengths=(60,)):
     try:
         idx, asm = index_fasta_file(path, bs)
     except Exception as e:  # noqa: BLE001
-        return [f"{what}: index_fasta_file raised {e!r} on a well-formed file"]
+        return [f"{what}: index_fasta_file raised {short(e)} on a well-formed file"]
     msgs = check_index(case, layout, idx, asm, what)
     fi = FastaIndex(path, bs)
     fi.index, fi.assembly = idx, asm
@@ -192,11 +285,11 @@ def check_cache_and_access(case, layout, path):
     try:
         fi.auto_load()
     except Exception as e:  # noqa: BLE001
-        return [f"auto_load raised {e!r} on a well-formed file"]
+        return [f"auto_load raised {short(e)} on a well-formed file"]
     try:
         msgs += check_index(case, layout, fi.index, fi.assembly, "auto_load")
         msgs += check_random_access(case, fi, "auto_load")
-        fai_rows = [ln.split("\t") for ln in pathlib.Path(str(path) + ".fai").read_text().split("\n") if ln]
+        fai_rows = [ln.split("\t") for ln in pathlib.Path(str(path) + ".fai").read_bytes().decode("utf-8", "replace").split("\n") if ln]
         want_rows = [[lay["name"], str(lay["length"]), str(lay["offset"]), str(lay["line_residues"])][: 4 if lay["length"] else 3] for lay in layout]
         if [r[: len(w)] for r, w in zip(fai_rows, want_rows)] != want_rows or len(fai_rows) != len(want_rows) or any(len(r) != 5 for r in fai_rows):
             msgs.append(f".fai rows {fai_rows} do not match (name, length, offset, residues/line) {want_rows}")
@@ -212,7 +305,7 @@ def check_cache_and_access(case, layout, path):
         msgs += check_random_access(case, fi2, "cached index")
         msgs += check_stream_back(case, fi2, fi2.assembly, case.width, "cached index", reloaded=True)
     except Exception as e:  # noqa: BLE001
-        msgs.append(f"loading the cached index raised {e!r}")
+        msgs.append(f"loading the cached index (.fai/.agp written by the first load of this well-formed file) raised {short(e)}")
     finally:
         close_index(fi2)
     return msgs
@@ -261,14 +354,14 @@ def replay(inp):
             msgs = check_cache_and_access(case, layout, path)
         else:
             msgs = check_case_buffer(case, layout, path, inp["buffer"], line_lengths=(60, case.width))
-        return msgs[0] if msgs else None
+        return msgs[0] + header_note(case) if msgs else None
 
 
 def nontrivial(case):
     return any(len(r.seq) > case.width or len(G.tiling(r.seq)) > 1 or not r.seq for r in case.records)
 
 
-def run_case(case, col, path, buffers, sample=False, cache=True):
+def run_case(case, col, path, buffers, sample=False, cache=True, first_only=False):
     layout = case.write(path)
     try:
         spec = None
@@ -276,14 +369,14 @@ def run_case(case, col, path, buffers, sample=False, cache=True):
         key = case.key()
         for bs in buffers:
             msgs = check_case_buffer(case, layout, path, bs, line_lengths=(60, case.width) if bs % 3 == 1 else (60,))
-            if msgs:
+            if msgs and not (first_only and spec):
                 spec = spec or case.spec()
-                col.fail(msgs[0], {"kind": "index", "case": spec, "buffer": bs})
+                col.fail(msgs[0] + header_note(case), {"kind": "index", "case": spec, "buffer": bs})
             col.case((key, bs), nontrivial=nt, sample={"kind": "index", "case": case.spec(), "buffer": bs} if sample and bs == 2 else None)
         if cache:
             msgs = check_cache_and_access(case, layout, path)
-            if msgs:
-                col.fail(msgs[0], {"kind": "cache", "case": case.spec()})
+            if msgs and not (first_only and spec):
+                col.fail(msgs[0] + header_note(case), {"kind": "cache", "case": case.spec()})
             col.case((key, "cache"), nontrivial=nt)
     finally:
         G.remove_with_caches(path)
@@ -302,6 +395,10 @@ def run(tier, seed, **opts):
         "present/absent x descriptions, each indexed with every buffer size 1..longest record+2 and 250000; files of "
         "1-3 records in which every non-empty subset of the records has no residues (header directly followed by "
         "the next header or by end of file, terminated or not) and random files with such records; "
+        "files whose header lines vary as bytes (names with every printable non-space ASCII character in the middle / at "
+        "the end / at the start, PanSN and other '#', '|', ':' names, UTF-8 and control-byte names, names with "
+        "non-ASCII white space [indexed directly only]; every ASCII white-space separator; descriptions holding every "
+        "byte value but CR/LF), each with a cold-then-warm load through the .fai/.agp cache; "
         "one evaluation = one (file, buffer) or (file, cache round trip); non-trivial = distinct (file, buffer) "
         "whose file has a record of more than one line, more than one run, or no residues"
     )
@@ -379,6 +476,105 @@ def run(tier, seed, **opts):
             if len(bufs) > 10:
                 bufs = sorted(rng.sample(bufs, 10))
             run_case(case, col, path, bufs, cache=k % 2 == 0)
+        # 6. header lines as bytes, each class of variety on its own first (so that a failure names one cause):
+        #    a. names with every printable non-space ASCII character in every position (PanSN '#', '|', ':', ..),
+        #       UTF-8 and control bytes in names - behind plain ASCII descriptions
+        #    b. every ASCII white-space separator between name and description, descriptions of arbitrary bytes
+        #       (every byte value but CR / LF; not UTF-8) - behind plain names
+        #    c. both together
+        #    with a cold-then-warm load of every such file whose names the cache route is known to carry
+        warm_names, direct_names = header_names(quick)
+        seqs6 = [b"acNGt", b"NtGACGTAcgtnnAC", b"ACGTACGTAC", b"", b"NNN", b"nACGTACGTACg"]
+        lays6 = list(G.layouts((1, 3, 60) if quick else (1, 2, 3, 4, 5, 60)))
+        ascii_descs = [*G.DESCRIPTIONS, b"\x0bd", b"\x0cd e", b"  two blanks", b" \t"]
+        descs6 = [sep + body for body in DESC_BODIES for sep in (SEPARATORS[:4] if quick else SEPARATORS)]
+        if quick:
+            descs6 = descs6[::2] + descs6[1::2]
+        k = 0
+
+        def allowance(n):
+            limit = len(col.failures) + n
+            return lambda: col.full or len(col.failures) >= limit
+
+        def header_file(names, descs, cache, sample=False, lays=None):
+            nonlocal k
+            for w, eol, fin in lays or [lays6[k % len(lays6)]]:
+                k += 1
+                recs = [G.Rec(nm, seqs6[(k + i) % len(seqs6)], descs[(3 * k + i) % len(descs)]) for i, nm in enumerate(names)]
+                case = Case(recs, w, eol, fin)
+                run_case(case, col, path, [1, 2, 3, 250_000] if k % 2 else [1, 4, 250_000], sample=sample, cache=cache, first_only=True)
+
+        # a. names that differ only behind a special character share a file (a cut name collides or mismatches)
+        for names, cache in ((warm_names, True), (direct_names, False)):
+            crowded = allowance(4)
+            for i in range(0, len(names), 3):
+                if crowded():
+                    break
+                header_file(names[i : i + 3], ascii_descs, cache, sample=cache and i == 0)
+        # b. every description body behind every separator
+        crowded = allowance(4)
+        for j in range(0, len(descs6), 2):
+            if crowded():
+                break
+            k += 1
+            w, eol, fin = lays6[k % len(lays6)]
+            recs = [G.Rec(f"s{i + 1}", seqs6[(k + i) % len(seqs6)], d) for i, d in enumerate(descs6[j : j + 2])]
+            run_case(Case(recs, w, eol, fin), col, path, [1, 2, 5, 250_000], sample=j == 0, cache=True, first_only=True)
+        # c. together
+        crowded = allowance(3)
+        pansn = [nm for nm in warm_names if "#" in nm or "|" in nm or ":" in nm or not nm.isascii()]
+        for i in range(0, len(pansn) if not quick else 12, 3):
+            if crowded():
+                break
+            header_file(pansn[i : i + 3], descs6, True)
+        if not quick:
+            # every single byte as the whole description and inside one, behind each plain separator
+            crowded = allowance(3)
+            for b in ANY_BYTES:
+                if crowded():
+                    break
+                for sep in SEPARATORS[:4]:
+                    k += 1
+                    w, eol, fin = lays6[k % len(lays6)]
+                    recs = [G.Rec("a#1", seqs6[k % 3], sep + bytes([b])), G.Rec("a#2", seqs6[3 + k % 3], sep + b"d" + bytes([b]) + b"e")]
+                    run_case(Case(recs, w, eol, fin), col, path, [1, 3, 250_000], cache=k % 2 == 0, first_only=True)
+            # the special names again in every layout
+            crowded = allowance(3)
+            special = REAL_NAMES + UTF8_NAMES
+            for i in range(0, len(special), 3):
+                if crowded():
+                    break
+                header_file(special[i : i + 3], ascii_descs + descs6, all(cacheable(nm) for nm in special[i : i + 3]), lays=lays6)
+            for i in range(0, len(direct_names), 2):
+                if crowded():
+                    break
+                header_file(direct_names[i : i + 2], ascii_descs, False, lays=lays6[::5])
+            # random headers: names over printable ASCII with a bias to '#', '|', ':', descriptions of random bytes
+            crowded = allowance(3)
+            alphabet = PRINTABLE + list("#|:#|:._-") + list("abcXYZ019") * 3
+            for i in range(1500):
+                if crowded():
+                    break
+                case = as_case(G.random_case(rng, max_records=3, max_len=80))
+                used = set()
+                for r in case.records:
+                    while True:
+                        nm = "".join(rng.choice(alphabet) for _ in range(rng.choice((1, 2, 3, 5, 8, 17))))
+                        if rng.random() < 0.2:
+                            nm = rng.choice(("HG002#1#", "sp|", "chr1:")) + nm
+                        if nm not in used and not nm.startswith("#"):
+                            break
+                    used.add(nm)
+                    r.name = nm
+                    if rng.random() < 0.8:
+                        r.desc = rng.choice(SEPARATORS) + bytes(rng.choice(ANY_BYTES) for _ in range(rng.choice((0, 1, 2, 4, 9, 30))))
+                    if rng.random() < 0.1:
+                        r.seq = b""
+                bufs = G.interesting_buffers(case)
+                if len(bufs) > 6:
+                    bufs = sorted(rng.sample(bufs, 6))
+                run_case(case, col, path, bufs, cache=True, first_only=True)
+        n_header_files = k
         # 5. files that must be rejected
         rejected = [b"", b"\n", b"ACGT\n", b"ACGT\nAC\n"]
         for eol in (b"\n", b"\r\n"):
@@ -405,6 +601,21 @@ def run(tier, seed, **opts):
             for lines in dup_empty:
                 rejected.append(eol.join(lines) + eol)
                 rejected.append(eol.join(lines))
+        # duplicate names with special characters, and duplicates whose headers differ only behind the name
+        for eol in (b"\n", b"\r\n"):
+            for h1, h2 in (
+                (b">HG002#1#c1", b">HG002#1#c1"),
+                (b">a#1 x", b">a#1\ty"),
+                (b">x\x0bone", b">x\x0ctwo"),
+                (b">x \xe9", b">x\t\xff\xfe"),
+                (b">sp|P1|x", b">sp|P1|x d"),
+                (b">chr1:1-2", b">chr1:1-2"),
+                ("\u00e01".encode(), "\u00e01 d".encode()),
+            ):
+                if not h1.startswith(b">"):
+                    h1, h2 = b">" + h1, b">" + h2
+                rejected.append(eol.join((h1, b"ACGT", b">y", b"AC", h2, b"GGN")) + eol)
+                rejected.append(eol.join((h1, h2, b"GGN")))
         for data in rejected:
             msg = check_rejected(data, path)
             inp = {"kind": "reject", "data": data.decode("latin-1")}
@@ -416,8 +627,10 @@ def run(tier, seed, **opts):
             f"records <= 3; masks exhaustive to length {max_mask} x 24 layouts; letter strings exhaustive to length "
             f"{max_letters}; {n_random} random files with records <= {120 if quick else 400} residues; buffer sizes 1..len+2 "
             f"(exhaustive part) or 1,2,primes,width+-1,run/record length+-1,250000 (random part); every placement of empty "
-            f"records among 1-3 records x layouts and {n_empty_random} random files with empty records; {len(rejected)} malformed files "
-            "(no records; duplicate names incl. copies without residues)"
+            f"records among 1-3 records x layouts and {n_empty_random} random files with empty records; {n_header_files} files with "
+            f"byte-level header variety ({len(warm_names)} names cold-then-warm, {len(direct_names)} indexed directly, "
+            f"{len(descs6)} separator+description byte strings); {len(rejected)} malformed files "
+            "(no records; duplicate names incl. copies without residues and names with special characters)"
         ),
         exhaustive=False,
     )
